@@ -967,7 +967,8 @@ Fixpoint unpack_elts (k : skind) (l : list expr) : list expr * bool :=
       match e with
       | EStar (ESeq KList inner) | EStar (ESeq KTuple inner) => (inner ++ r, true)
       | EStar (ESeq KSet inner) =>
-          if is_kset k || (length inner <=? 1)%nat then (inner ++ r, true) else (e :: r, ch)
+          if is_kset k || ((length inner <=? 1)%nat && forallb (fun x => negb (is_star x)) inner)
+          then (inner ++ r, true) else (e :: r, ch)
       | EStar (EDict items) =>
           if (is_kset k || (length items <=? 1)%nat) && forallb kv_ok items
           then (map kv_key items ++ r, true) else (e :: r, ch)
